@@ -12,7 +12,7 @@ from ..data import enumerate_data, skeletons
 from ..grammar import gen_types, well_formed
 from ..realize import PRELUDE, exec_source
 from ..refmodel.deser import UNSPEC, Ctx, conform
-from ..tast import AnyT, short, walk
+from ..tast import AnyT, Obj, short, walk
 from ..values import match
 from . import deser_common as dc
 from .c04 import build_value, values_of
@@ -131,6 +131,8 @@ def run_type(i, label, spec, tier, st):
             except Exception:
                 st.count("value_not_buildable")
                 continue
+            if ap and isinstance(real, dict) and isinstance(spec, Obj) and spec.kind == "typeddict" and "zz" not in real:
+                real = dict(real, zz=1)  # a TypedDict value keeps its additional properties
             base = {"label": label, "type": short(spec), "options": [ap, al], "value": repr(real)[:300]}
             try:
                 data = sm(real)
@@ -164,9 +166,13 @@ def run_type(i, label, spec, tier, st):
                     st.violation(dict(base, signature={"kind": "roundtrip_not_identity", "shape": dc.shape_of(label), "via": tag}, what=f"deserialize(serialize(v)) = {back!r} != v = {real!r} (data {data!r})"[:400], source=rz.source))
                     break
         # data -> value -> data
+        td_names = set()
         if ap and al != "id" and "typeddict" in label:
-            continue  # an additional key equal to a field *name* collides inside the TypedDict (undecided by the docs)
-        for dev, d in enumerate_data(spec, ctx, k=1, wide=False):
+            # an additional key equal to a field *name* collides inside the TypedDict (undecided by the docs)
+            td_names = {f.name for x in walk(spec) if isinstance(x, Obj) and x.kind == "typeddict" for f in x.fields}
+        for dev, d in enumerate_data(spec, ctx, k=1, wide=ap and "typeddict" in label):
+            if td_names and _has_key(d, td_names):
+                continue
             kind, out = dc.run_impl(dm, d)
             if kind != "ok":
                 continue
@@ -187,6 +193,14 @@ def run_type(i, label, spec, tier, st):
                 st.violation(dict(base, signature={"kind": "redeserialize_differs", "shape": dc.shape_of(label)}, what=f"d={d!r} -> {out!r} -> {s!r} -> {out2 if k2 == 'ok' else dc.impl_errors(out2)[:2]!r}"[:400], source=rz.source))
     case.drop()
     dc.periodic_reset(i)
+
+
+def _has_key(d, names) -> bool:
+    if isinstance(d, dict):
+        return any(k in names for k in d) or any(_has_key(v, names) for v in d.values())
+    if isinstance(d, list):
+        return any(_has_key(v, names) for v in d)
+    return False
 
 
 def _eq(a, b) -> bool:
